@@ -60,6 +60,8 @@ class Raised(Exception):
         self.what = what
 
 
+BINOPS = {ast.Add: operator.add, ast.Sub: operator.sub, ast.Mult: operator.mul, ast.FloorDiv: operator.floordiv, ast.Mod: operator.mod, ast.BitAnd: operator.and_,
+          ast.BitOr: operator.or_, ast.BitXor: operator.xor, ast.LShift: operator.lshift, ast.RShift: operator.rshift, ast.Div: operator.truediv, ast.Pow: operator.pow}
 CMP = {ast.Lt: operator.lt, ast.LtE: operator.le, ast.Gt: operator.gt, ast.GtE: operator.ge, ast.Eq: operator.eq,
        ast.NotEq: operator.ne, ast.Is: operator.is_, ast.IsNot: operator.is_not,
        ast.In: lambda a, b: a in b, ast.NotIn: lambda a, b: a not in b}
@@ -93,12 +95,29 @@ def ev(e, env):
         if e.id not in env and e.id in BUILTINS:
             return BUILTINS[e.id]
         if e.id not in env:
-            if env.get('__strict_locals__'):
-                raise Raised('UnboundLocalError: %s' % e.id)
+            sl_ = env.get('__strict_locals__')
+            if sl_ and (sl_ is True or e.id in sl_):
+                raise Raised('UnboundLocalError: %s' % e.id)        # a name the evaluated function binds somewhere, not bound on this path
+            mn_ = env.get('__module_names__')
+            if mn_ is not None and e.id not in mn_ and not hasattr(__import__('builtins'), e.id):
+                raise Raised('NameError: %s' % e.id)                # bound nowhere: not in the function, not in its module, not a builtin
             raise AnalysisError('pure evaluator: unbound name %s' % e.id)
         return env[e.id]
     if isinstance(e, (ast.GeneratorExp, ast.ListComp)):
         return _comprehension(e, env)
+    if isinstance(e, ast.Lambda) and not e.args.defaults and not e.args.vararg and not e.args.kwarg:
+        fake = ast.FunctionDef(name='<lambda>', args=e.args, body=[ast.Return(value=e.body)], decorator_list=[])
+        return Closure(fake, env)
+    if isinstance(e, ast.Call) and isinstance(e.func, ast.Name) and e.func.id in ('sorted', 'min', 'max') and e.func.id not in env and len(e.args) == 1 \
+            and e.keywords and all(k.arg in ('key', 'reverse') for k in e.keywords):
+        kw = {k.arg: ev(k.value, env) for k in e.keywords}
+        try:
+            return {'sorted': sorted, 'min': min, 'max': max}[e.func.id](list(ev(e.args[0], env)), **kw)
+        except (ValueError, TypeError) as ex:
+            raise Raised(type(ex).__name__)
+    if isinstance(e, ast.Call) and isinstance(e.func, ast.Name) and e.func.id == 'callable' and e.func.id not in env and len(e.args) == 1 and not e.keywords:
+        v_ = ev(e.args[0], env)
+        return isinstance(v_, Closure) or (isinstance(v_, Obj) and '__name__' in v_.__dict__) or (callable(v_) and not isinstance(v_, Obj))
     if isinstance(e, ast.SetComp):
         return set(_comprehension(e, env))
     if isinstance(e, ast.DictComp):
@@ -182,6 +201,8 @@ def ev(e, env):
         o = ev(e.value, env)
         if hasattr(o, '__dict__') and e.attr in vars(o):
             return vars(o)[e.attr]
+        if isinstance(o, tuple) and e.attr in getattr(type(o), '_fields', ()):
+            return getattr(o, e.attr)
         if hasattr(o, '__dict__') and not isinstance(o, Obj):
             raise AnalysisError('pure evaluator: attribute %s of the evaluated world is not modelled' % norm(e))
         if o is None or isinstance(o, (int, float, str, bool, tuple, list, dict)):
@@ -224,9 +245,12 @@ def ev(e, env):
         raise AnalysisError('pure evaluator: unary %s' % type(e.op).__name__)
     if isinstance(e, ast.IfExp):
         return ev(e.body, env) if ev(e.test, env) else ev(e.orelse, env)
-    if isinstance(e, ast.BinOp) and isinstance(e.op, (ast.Add, ast.Sub, ast.BitAnd, ast.BitOr)):
+    if isinstance(e, ast.BinOp) and type(e.op) in BINOPS:
         a, b = ev(e.left, env), ev(e.right, env)
-        return {ast.Add: operator.add, ast.Sub: operator.sub, ast.BitAnd: operator.and_, ast.BitOr: operator.or_}[type(e.op)](a, b)
+        try:
+            return BINOPS[type(e.op)](a, b)
+        except (TypeError, ValueError, ZeroDivisionError) as ex:
+            raise Raised(type(ex).__name__)
     if isinstance(e, ast.Call) and isinstance(e.func, ast.Attribute) and not e.args and not e.keywords:
         o = ev(e.func.value, env)
         if isinstance(o, Obj) and callable(o.__dict__.get(e.func.attr)):
@@ -243,10 +267,13 @@ def run_body(stmts, env):
             run_body(s.body if ev(s.test, env) else s.orelse, env)
         elif isinstance(s, ast.Assign) and len(s.targets) == 1 and isinstance(s.targets[0], ast.Name):
             env[s.targets[0].id] = ev(s.value, env)
-        elif isinstance(s, ast.AugAssign) and isinstance(s.target, ast.Name) and isinstance(s.op, (ast.BitAnd, ast.BitOr, ast.Add)):
-            cur = env[s.target.id]
+        elif isinstance(s, ast.AugAssign) and isinstance(s.target, ast.Name) and type(s.op) in BINOPS:
+            cur = ev(ast.Name(id=s.target.id, ctx=ast.Load()), env)
             v = ev(s.value, env)
-            env[s.target.id] = {ast.BitAnd: operator.and_, ast.BitOr: operator.or_, ast.Add: operator.add}[type(s.op)](cur, v)
+            try:
+                env[s.target.id] = BINOPS[type(s.op)](cur, v)
+            except (TypeError, ValueError, ZeroDivisionError) as ex:
+                raise Raised(type(ex).__name__)
         elif isinstance(s, ast.Assign) and len(s.targets) == 1 and isinstance(s.targets[0], ast.Tuple) and all(isinstance(t, ast.Name) for t in s.targets[0].elts):
             v = ev(s.value, env)
             if len(v) != len(s.targets[0].elts):
@@ -317,7 +344,7 @@ def run_body(stmts, env):
             raise AnalysisError('pure evaluator: unsupported statement %s' % norm(s))
 
 
-def call(fnode, args, globals_=None, strict_locals=False, mutable=False, methods=None):
+def call(fnode, args, globals_=None, strict_locals=False, mutable=False, methods=None, module_names=None):
     """mutable=True: the evaluated code may store into the (scratch) world objects it was given - used to let a constructor / registration
     method build the small worlds its readers are then evaluated on; methods: {name: FunctionDef} callable on world objects"""
     params = [a.arg for a in fnode.args.args]
@@ -331,9 +358,21 @@ def call(fnode, args, globals_=None, strict_locals=False, mutable=False, methods
             env[a_.arg] = d_.value
     env.update(zip(params, args))
     if strict_locals:
-        env['__strict_locals__'] = True
+        # names the function (or a function nested in it) binds: reading one of them before any binding is python's UnboundLocalError / NameError;
+        # any other unknown name is a global the caller of the evaluator did not model (refusal, not a verdict)
+        bound = set()
+        for n_ in ast.walk(fnode):
+            if isinstance(n_, ast.Name) and isinstance(n_.ctx, ast.Store):
+                bound.add(n_.id)
+            elif isinstance(n_, (ast.FunctionDef, ast.ClassDef)) and n_ is not fnode:
+                bound.add(n_.name)
+            elif isinstance(n_, ast.arg):
+                bound.add(n_.arg)
+        env['__strict_locals__'] = bound
     if mutable:
         env['__mutable__'] = True
+    if module_names is not None:
+        env['__module_names__'] = set(module_names)
     if methods:
         env['__methods__'] = methods
     try:
